@@ -36,7 +36,7 @@ ASSUMPTIONS = ['schema.ts keeps the generator layout (`"table": {` blocks with o
                'string/Number.POSITIVE_INFINITY/Number.NEGATIVE_INFINITY/Infinity/NaN',
                'the SQL text in _defaultValues (second tuple element) is outside the statement and not compared']
 BUDGET = {'quick': dict(examples=0, shards=4, max_seconds=60),
-          'thorough': dict(examples=0, shards=4, max_seconds=600)}
+          'thorough': dict(examples=0, shards=4, max_seconds=1800)}
 MIN_NONTRIVIAL = 10
 
 
